@@ -318,6 +318,11 @@ def finish(mod, check_id, tier, seed, plan, records, covers, inconclusive, t0):
         json.dump(ev, f, indent=1, default=repr)
         f.write('\n')
 
+    if os.environ.get('VERIF_COVER_DUMP'):
+        os.makedirs(os.environ['VERIF_COVER_DUMP'], exist_ok=True)
+        with open(os.path.join(os.environ['VERIF_COVER_DUMP'], '%s.json' % check_id), 'w') as f:
+            json.dump(funcs, f)
+
     print('%s tier=%s seed=%s evaluations=%d distinct_nontrivial=%d functions=%d wall=%.1fs' % (
         check_id, tier, seed, evaluations, len(sigs), len(funcs), wall))
     for k in sorted(counts):
